@@ -35,6 +35,7 @@ ASSUMPTIONS = [
     'logdet: domain det(A0) > 0 (log(det) is what the docstring promises; for det < 0 the code returns NaN = log of a negative number, not asserted); reference = mpmath numerical differentiation of log|det A(t)|, tolerance 1e-9 * max(1, max_{k<=d}|ref_k|)',
     'expm: algopy.expm is a fixed Pade-7 approximant without scaling: domain ||A0||_1 <= 0.5; reference mpmath.expm(A(t)) differentiated numerically at >= 150 digits, second opinion = defining power series; tolerance 1e-8 * max(1, max|ref|)',
     'solve with a 1-D right-hand side is outside the statement ("matrix and multi-column right-hand sides"); the code states its precondition x.data.shape=(D,P,M,K): counted as declared rejection, a returned value would be checked',
+    'operands are handed over as fresh C-contiguous arrays or (1/3) as transposed views X.T; after the call the operand must be bit-identical to what was passed (the equations are statements about the curve the caller holds)',
     'N-D trace, 0-d operands of dot, complex data are outside the domain',
     'mpmath, NumPy, SciPy/LAPACK are trusted',
 ]
@@ -215,8 +216,23 @@ def _DP(case):
     raise KeyError('no UTPM operand')
 
 
-def _wrap(a, k):
-    return UTPM(a.copy()) if k == 'U' else a.copy()
+def _live(case, keys):
+    """the operands as handed to algopy (layout per operand from case['lay'], default C-contiguous copies)"""
+    kind = case.get('kind') or 'U' * len(keys)
+    lay = case.get('lay') or 'C' * len(keys)
+    return [R.live_operand(case[k], kind[i] == 'U', lay[i]) for i, k in enumerate(keys)]
+
+
+def _same(case, keys, live, what):
+    for k, obj in zip(keys, live):
+        R.assert_unchanged(obj, case[k], '%s, operand %s' % (what, k))
+
+
+@st.composite
+def with_layout(draw, strat, nops):
+    case = draw(strat)
+    case['lay'] = ''.join(draw(st.sampled_from(['C', 'C', 'T'])) for _ in range(nops))
+    return case
 
 
 def _fn(case):
@@ -241,7 +257,9 @@ def prop_binary(case, stats):
     D, P = _DP(case)
     x, y = case['x'], case['y']
     what = '%s[%s %s.%s]' % (op, kind, x.shape[2:] if kind[0] == 'U' else x.shape, y.shape[2:] if kind[1] == 'U' else y.shape)
-    z = guard(_fn(case), _wrap(x, kind[0]), _wrap(y, kind[1]))
+    live = _live(case, ('x', 'y'))
+    z = guard(_fn(case), *live)
+    _same(case, ('x', 'y'), live, what)
     _is_utpm(z, what)
     ref, scale = R.conv_with_scale(R.as_series(x, kind[0], D, P), R.as_series(y, kind[1], D, P), npop)
     R.check_close(z.data, ref, scale, TOL_CONV, stats, what)
@@ -250,7 +268,9 @@ def prop_binary(case, stats):
 def prop_inv(case, stats):
     A = case['A']
     D, P, n, _ = A.shape
-    Y = guard(_fn(case), UTPM(A.copy()))
+    live = _live(case, ('A',))
+    Y = guard(_fn(case), *live)
+    _same(case, ('A',), live, 'inv')
     _is_utpm(Y, 'inv')
     if Y.data.shape != A.shape:
         raise Violation('inv: data shape %s, expected %s' % (Y.data.shape, A.shape))
@@ -280,7 +300,9 @@ def _check_solve(case, X, stats, what):
 
 def prop_solve(case, stats):
     kind = case['kind']
-    X = guard(_fn(case), _wrap(case['A'], kind[0]), _wrap(case['B'], kind[1]))
+    live = _live(case, ('A', 'B'))
+    X = guard(_fn(case), *live)
+    _same(case, ('A', 'B'), live, 'solve[%s]' % kind)
     _check_solve(case, X, stats, 'solve[%s]' % kind)
 
 
@@ -290,14 +312,18 @@ SOLVE_DECLARED = ('require x.data.shape=(D,P,M,K)', 'not enough values to unpack
 def prop_solve_vec(case, stats):
     """1-D right-hand side: the code demands (D,P,M,K) / (M,K); a returned value is checked like any other"""
     kind = case['kind']
-    X = R.guard_declared(_fn(case), _wrap(case['A'], kind[0]), _wrap(case['B'], kind[1]), declared=SOLVE_DECLARED)
+    live = _live(case, ('A', 'B'))
+    X = R.guard_declared(_fn(case), *live, declared=SOLVE_DECLARED)
+    _same(case, ('A', 'B'), live, 'solve[%s, 1-D rhs]' % kind)
     _check_solve(case, X, stats, 'solve[%s, 1-D rhs]' % kind)
 
 
 def prop_det(case, stats):
     A = case['A']
     D, P, n, _ = A.shape
-    y = guard(_fn(case), UTPM(A.copy()))
+    live = _live(case, ('A',))
+    y = guard(_fn(case), *live)
+    _same(case, ('A',), live, 'det')
     _is_utpm(y, 'det')
     ref = np.zeros((D, P))
     scale = np.zeros((D, P))
@@ -306,7 +332,7 @@ def prop_det(case, stats):
     # second oracle on one direction: arbitrary precision numerical differentiation of mpmath.det(A(t))
     p = case['pm']
     num = np.array(mp_taylor(lambda t: mpmath.det(R.mp_matrix(A[:, p], t)), [0.0, 1.0], D=D), dtype=float)
-    if np.max(np.abs(num - ref[:, p]) / np.maximum(scale[:, p], 1e-300)) > 1e-12:
+    if np.max(np.abs(num - ref[:, p]) / np.maximum.accumulate(scale[:, p])) > 1e-12:      # running scale: a whole order can vanish exactly
         raise Inconclusive('det oracles disagree')
     # the LU based evaluation of order d passes through all lower orders: running maximum of the term magnitudes
     R.check_close(y.data, ref, np.maximum.accumulate(scale, axis=0), TOL, stats, 'det')
@@ -315,7 +341,9 @@ def prop_det(case, stats):
 def prop_logdet(case, stats):
     A = case['A']
     D, P, n, _ = A.shape
-    y = guard(_fn(case), UTPM(A.copy()))
+    live = _live(case, ('A',))
+    y = guard(_fn(case), *live)
+    _same(case, ('A',), live, 'logdet')
     _is_utpm(y, 'logdet')
     ref = np.zeros((D, P))
     for p in range(P):
@@ -326,7 +354,9 @@ def prop_logdet(case, stats):
 def prop_trace(case, stats):
     A = case['A']
     D, P = A.shape[:2]
-    y = guard(_fn(case), UTPM(A.copy()))
+    live = _live(case, ('A',))
+    y = guard(_fn(case), *live)
+    _same(case, ('A',), live, 'trace')
     _is_utpm(y, 'trace')
     ref = np.array([[np.trace(A[d, p]) for p in range(P)] for d in range(D)])
     if y.data.shape != ref.shape:
@@ -339,7 +369,9 @@ def prop_trace(case, stats):
 def prop_expm(case, stats):
     A = case['A']
     D, P, n, _ = A.shape
-    Y = guard(algopy.expm, UTPM(A.copy()))
+    live = _live(case, ('A',))
+    Y = guard(algopy.expm, *live)
+    _same(case, ('A',), live, 'expm')
     _is_utpm(Y, 'expm')
     ref = np.zeros_like(A)
     for p in range(P):
@@ -408,6 +440,8 @@ def _classes(case):
         c.append('kinds=' + case['kind'])
     if 'entry' in case:
         c.append('entry=' + case['entry'])
+    if 'T' in case.get('lay', ''):
+        c.append('layout=transposed-view operand')
     ops = _utpm_operands(case)
     c.append('pattern=' + gen.pattern_class(ops[0]))
     # an identically zero coefficient layer (all directions, all elements) below a non-zero one, layer 0 included
@@ -461,25 +495,25 @@ def buckets(tier):
         for kind in KINDS:
             heavy = max(rx, ry) == 3
             bl.append(Bucket('dot:%d-%d:%s' % (rx, ry, kind),
-                             (lambda rx=rx, ry=ry, kind=kind: dot_cases(rx, ry, kind, tier)), prop_binary,
+                             (lambda rx=rx, ry=ry, kind=kind: with_layout(dot_cases(rx, ry, kind, tier), 2)), prop_binary,
                              {'quick': 100, 'thorough': 800 if heavy else 1000},
                              nontrivial=_nontrivial, classes=_classes, weight=2.0 if heavy else 1.0))
     for kind in KINDS:
-        bl.append(Bucket('outer:' + kind, (lambda kind=kind: outer_cases(kind, tier)), prop_binary,
+        bl.append(Bucket('outer:' + kind, (lambda kind=kind: with_layout(outer_cases(kind, tier), 2)), prop_binary,
                          {'quick': 150, 'thorough': 1500}, nontrivial=_nontrivial, classes=_classes))
-    bl.append(Bucket('inv', (lambda: inv_cases(tier)), prop_inv, {'quick': 250, 'thorough': 1500},
+    bl.append(Bucket('inv', (lambda: with_layout(inv_cases(tier), 1)), prop_inv, {'quick': 250, 'thorough': 1500},
                      nontrivial=_nontrivial, classes=_classes, shards={'quick': 1, 'thorough': 2}, weight=2.0))
     for kind in KINDS:
-        bl.append(Bucket('solve:' + kind, (lambda kind=kind: solve_cases(kind, tier)), prop_solve,
+        bl.append(Bucket('solve:' + kind, (lambda kind=kind: with_layout(solve_cases(kind, tier), 2)), prop_solve,
                          {'quick': 200, 'thorough': 2000}, nontrivial=_nontrivial, classes=_classes, weight=2.0))
-    bl.append(Bucket('solve:vector-rhs', (lambda: st.sampled_from(KINDS).flatmap(lambda k: solve_cases(k, tier, vec=True))),
+    bl.append(Bucket('solve:vector-rhs', (lambda: st.sampled_from(KINDS).flatmap(lambda k: with_layout(solve_cases(k, tier, vec=True), 2))),
                      prop_solve_vec, {'quick': 30, 'thorough': 150}, nontrivial=_nontrivial, classes=_classes))
-    bl.append(Bucket('det', (lambda: det_cases('det', tier)), prop_det, {'quick': 150, 'thorough': 1000},
+    bl.append(Bucket('det', (lambda: with_layout(det_cases('det', tier), 1)), prop_det, {'quick': 150, 'thorough': 1000},
                      nontrivial=_nontrivial, classes=_classes, shards={'quick': 2, 'thorough': 4}, weight=12.0))
-    bl.append(Bucket('logdet', (lambda: det_cases('logdet', tier)), prop_logdet, {'quick': 150, 'thorough': 1000},
+    bl.append(Bucket('logdet', (lambda: with_layout(det_cases('logdet', tier), 1)), prop_logdet, {'quick': 150, 'thorough': 1000},
                      nontrivial=_nontrivial, classes=_classes, shards={'quick': 2, 'thorough': 4}, weight=10.0))
-    bl.append(Bucket('trace', (lambda: trace_cases(tier)), prop_trace, {'quick': 150, 'thorough': 1500},
+    bl.append(Bucket('trace', (lambda: with_layout(trace_cases(tier), 1)), prop_trace, {'quick': 150, 'thorough': 1500},
                      nontrivial=_nontrivial, classes=_classes))
-    bl.append(Bucket('expm', (lambda: expm_cases(tier)), prop_expm, {'quick': 50, 'thorough': 300},
+    bl.append(Bucket('expm', (lambda: with_layout(expm_cases(tier), 1)), prop_expm, {'quick': 50, 'thorough': 300},
                      nontrivial=_nontrivial, classes=_classes, shards={'quick': 4, 'thorough': 8}, weight=40.0))
     return bl
